@@ -138,9 +138,7 @@ def diff(chk, pid, run, model, stage):
     """Compare implementation observations with the model's. A disagreement on a history for which the
     searcher reported a property violation is attributed to that violation (reported once by key);
     any other disagreement is a correspondence violation.  Returns (#compared, #disagreements)."""
-    viol_cases = {}
-    for v in run["viols"]:
-        viol_cases.setdefault((v.get("file"), v.get("reader")), []).append(v)
+    attributed = set()
     n = bad = 0
     variant_soft = 0
     filemap = {f["id"]: f for f in run["files"]}
@@ -164,16 +162,11 @@ def diff(chk, pid, run, model, stage):
                 continue
             bad += 1
             i, x, y = d
-            # did the searcher find the property failing on this very history?
-            hit = None
-            for v in viol_cases.get((c["file"], c["reader"]), []):
-                vc = v.get("case", "")
-                if c["m"].startswith(vc) or vc.startswith(c["m"].rsplit(" ", 1)[0]):
-                    if c["m"].startswith(vc):
-                        hit = v
-                        break
-            if hit is not None:
-                continue  # reported through the "viol" line (below), with its own key
+            # did the searcher find the property failing on this very history?  Then the violation is
+            # reported through its "viol" line (report_viols), under its own key.
+            if c.get("viol"):
+                attributed.add(c["viol"])
+                continue
             if reported < 3:
                 reported += 1
                 f = filemap.get(c["file"], {})
@@ -274,7 +267,7 @@ def vm_sample(chk, pid, run, limit=40, max_ops=14, max_file_len=1500):
     picked, seen = [], set()
     for c in run["cases"]:
         f = filemap.get(c["file"])
-        if f is None or len(f["m"]) > max_file_len or c["nops"] > max_ops or c["nops"] < 3:
+        if f is None or len(f["m"]) > max_file_len or c["nops"] > max_ops or c["nops"] < 3 or c.get("viol"):
             continue
         key = (c["reader"], c.get("class"), c["file"])
         if key in seen:
